@@ -89,6 +89,10 @@ pub fn c10(ctx: &Ctx) -> PropResult {
             cases.push(run_case(src, &format!("{module}.{name}")));
         }
     }
+    // the same call site run twice with the name re-bound in between
+    for src in crate::props6::rebinding_between_runs_family(&reg) {
+        cases.push(run_case(src, "rebinding-between-runs"));
+    }
     // every statement form applied to every kind of value
     for (_, e) in EXEMPLARS {
         let forms = [
@@ -189,10 +193,14 @@ pub fn c10(ctx: &Ctx) -> PropResult {
         let body = g.program(k);
         cases.push(run_case(format!("{}{}mp <- MAP()\n{}", imports(&["MATH", "STRING", "IO", "STYLE", "MAP"]), "", body), "stateful-sequence"));
     }
+    // every native procedure that builds a list builds a new one each time
+    for src in crate::props6::native_list_freshness_family() {
+        cases.push(run_case(src, "native-list-freshness"));
+    }
     let stats = run_cases(&ctx.driver, cases, &no_panic_oracle, &no_known, ctx.threads);
     PropResult {
         stats,
-        rule: format!("registry-driven sweep: every procedure of CORE, MATH, STRING, MAP, IO, STYLE, TIME found in the live registry (except INPUT*/RANDOM/TIME, see C12/C15) applied to argument tuples over {} exemplars per position (all tuples when they fit the budget, otherwise every exemplar at every position plus random tuples); every statement form applied to every exemplar; random stateful programs calling library procedures; in-process under catch_unwind with a statement budget; non-trivial = ended normally or with a runtime error", EXEMPLARS.len()),
+        rule: format!("registry-driven sweep: every procedure of CORE, MATH, STRING, MAP, IO, STYLE, TIME found in the live registry (except INPUT*/RANDOM/TIME, see C12/C15) applied to argument tuples over {} exemplars per position (all tuples when they fit the budget, otherwise every exemplar at every position plus random tuples); every statement form applied to every exemplar; random stateful programs calling library procedures; in-process under catch_unwind with a statement budget; non-trivial = ended normally or with a runtime error; the same call site run twice with the name re-bound in between (user procedure with fewer parameters / IMPORT of the library module, both orders); library procedures that build lists called twice with the first result changed in between", EXEMPLARS.len()),
         exhaustive: false,
         notes: vec![],
     }
@@ -367,10 +375,16 @@ pub fn c14(ctx: &Ctx) -> PropResult {
         }
         Ok(nt)
     };
+    // SPLIT builds a new list each time (changing one result leaves later results alone)
+    for src in crate::props6::native_list_freshness_family() {
+        if src.contains("SPLIT") {
+            cases.push(run_case(src, "native-list-freshness"));
+        }
+    }
     let stats = run_cases(&ctx.driver, cases, &oracle, &no_known, ctx.threads);
     PropResult {
         stats,
-        rule: format!("every string of length <= {max} over {{a, b, blank, é, 中, 😀}} through all one-argument STRING procedures, LENGTH / FOR EACH / largest valid index consistency, a sample of patterns of length <= 2 for CONTAINS / STARTS_WITH / ENDS_WITH / SPLIT / JOIN / REPLACE with the law JOIN(SPLIT(s,p),p) = s evaluated in-language, SUBSTRING with start / length over {{-1, 0, 0.5, 1, 1.9, 2, LENGTH, LENGTH+1, NaN, inf}}; TO_NUMBER / TO_BOOL on 27 spellings; random Unicode strings incl. case-mapping specials (ß, İ, ǅ, ﬁ) and Unicode blanks; non-trivial = ended normally or with a runtime error"),
+        rule: format!("every string of length <= {max} over {{a, b, blank, é, 中, 😀}} through all one-argument STRING procedures, LENGTH / FOR EACH / largest valid index consistency, a sample of patterns of length <= 2 for CONTAINS / STARTS_WITH / ENDS_WITH / SPLIT / JOIN / REPLACE with the law JOIN(SPLIT(s,p),p) = s evaluated in-language, SUBSTRING with start / length over {{-1, 0, 0.5, 1, 1.9, 2, LENGTH, LENGTH+1, NaN, inf}}; TO_NUMBER / TO_BOOL on 27 spellings; random Unicode strings incl. case-mapping specials (ß, İ, ǅ, ﬁ) and Unicode blanks; non-trivial = ended normally or with a runtime error; SPLIT called twice with the first result changed in between"),
         exhaustive: false,
         notes: vec!["Σ (final-sigma rule of to_lowercase) is excluded from the alphabets: the model's TO_LOWER is context-free".into()],
     }
@@ -631,10 +645,19 @@ pub fn c16(ctx: &Ctx) -> PropResult {
         }
         Ok(nt)
     };
+    // MAP_KEYS / MAP_VALUES build a new list each time; values equal to the stored one but distinguishable from it
+    for src in crate::props6::native_list_freshness_family() {
+        if src.contains("MAP_KEYS") || src.contains("MAP_VALUES") {
+            cases.push(run_case(src, "native-list-freshness"));
+        }
+    }
+    for src in crate::props6::map_equal_values_family() {
+        cases.push(run_case(src, "equal-values"));
+    }
     let stats = run_cases(&ctx.driver, cases, &oracle, &no_known, ctx.threads);
     PropResult {
         stats,
-        rule: "histories of MAP_INSERT / MAP_GET / MAP_CONTAINS_KEY on two maps with keys {1, 1.0, 0, -0, \"1\", TRUE, FALSE, NULL, NaN, 2, \"\", \"a\", 0.5}: all histories of length 2 (after an initial insert; quick: a sample), random histories of length 3-40, each followed by the sizes of MAP_KEYS / MAP_VALUES and a membership probe per key; every non-map value as the map argument of every MAP procedure; every result line compared with the model (association list proved equal to the ideal finite map)".into(),
+        rule: "histories of MAP_INSERT / MAP_GET / MAP_CONTAINS_KEY on two maps with keys {1, 1.0, 0, -0, \"1\", TRUE, FALSE, NULL, NaN, 2, \"\", \"a\", 0.5}: all histories of length 2 (after an initial insert; quick: a sample), random histories of length 3-40, each followed by the sizes of MAP_KEYS / MAP_VALUES and a membership probe per key; every non-map value as the map argument of every MAP procedure; every result line compared with the model (association list proved equal to the ideal finite map); MAP_KEYS / MAP_VALUES called twice with the first result changed in between (filled, empty, new map); values equal to the stored one but distinguishable (0 / -0, equal-contents lists)".into(),
         exhaustive: !ctx.quick(),
         notes: vec!["numeric keys that are == in the language but not IEEE-equal (within epsilon), and infinite keys, are outside the generator: known finding, see known_findings.txt".into()],
     }
@@ -669,7 +692,10 @@ pub fn c17(ctx: &Ctx) -> PropResult {
         let mut rows: Vec<String> = vec![];
         for _ in 0..h {
             let wl = if rng.chance(1, 6) { rng.below(w + 1) } else { w };
-            rows.push((0..wl).map(|_| cells[rng.below(6)]).collect());
+            // (blank and `,` are empty cells like `.`)
+            let fill = ["#", ".", "x", "1", "2", "3", " ", " ", ",", "."];
+            let _ = cells;
+            rows.push((0..wl).map(|_| fill[rng.below(fill.len())]).collect());
         }
         let kind = rng.below(20);
         if kind > 2 {
@@ -695,6 +721,15 @@ pub fn c17(ctx: &Ctx) -> PropResult {
         let k = 1 + rng.below(10);
         let src = format!("IMPORT MOD \"ROBOT\"\nr <- ROBOT_MAP(\"{grid}\")\nDISPLAY(r)\nIF (r == NULL) {{\nDISPLAY(\"malformed\")\n}} ELSE {{\nDISPLAY(FORMAT_ROBOT_ASCII(r))\n{}DISPLAY(FORMAT_ROBOT(r))\n}}\n", cmds(&mut rng, k));
         cases.push(run_case(src, "grid-walk"));
+    }
+    // empty cells written as blanks at the end of lines (the widest line ends in blanks; all lines do): the grid keeps
+    // its width, the robot can enter those cells
+    for grid in ["e  ", "e ", " e ", ".e \\n#  ", "  w", "s \\n  ", "e  \\n.", "e\\n   ", "e  \\n   \\n#  ", " \\ne", "e , ", "n  \\n   ", "   \\n  n", "e  x", "e   \\n", "  \\n e\\n  "] {
+        let mut body = String::new();
+        for _ in 0..4 {
+            body.push_str("DISPLAY([CAN_MOVE(r, \"forward\"), CAN_MOVE(r, \"left\"), CAN_MOVE(r, \"right\"), CAN_MOVE(r, \"backward\")])\nIF (CAN_MOVE(r, \"forward\")) {\nDISPLAY(MOVE_FORWARD(r))\n} ELSE {\nROTATE_RIGHT(r)\n}\nDISPLAY(FORMAT_ROBOT_ASCII(r))\n");
+        }
+        cases.push(run_case(format!("IMPORT MOD \"ROBOT\"\nr <- ROBOT_MAP(\"{grid}\")\nDISPLAY(r == NULL)\nDISPLAY(FORMAT_ROBOT_ASCII(r))\n{body}DISPLAY(FORMAT_ROBOT(r))\n"), "trailing-blanks"));
     }
     // checkpoint corridors: the goal answers TRUE only after every checkpoint, in order
     for corridor in ["e12x", "e21x", "e11x", "e13x", "e1x2", "ex", "e.x", "e1.2.x", "e#x", "e123456789x"] {
@@ -747,7 +782,7 @@ pub fn c17(ctx: &Ctx) -> PropResult {
     let stats = run_cases(&ctx.driver, cases, &oracle, &no_known, ctx.threads);
     PropResult {
         stats,
-        rule: "random grids up to 3x4 over {#, ., x, 1, 2, 3, blank, @, ',', X, robot markers in both cases}, ragged lines, LF / CRLF, trailing newline, with one robot (85%), none, two, or an unknown symbol / 0 digit; random command sequences of length 1-10 (rotations, guarded and unguarded MOVE_FORWARD); after every command the ASCII rendering and CAN_MOVE in all four directions (and an unknown direction word) are displayed; checkpoint corridors incl. out-of-order, repeated and skipped numbers; every ROBOT procedure on every argument exemplar; unguarded moves into a wall must end the run as the specified termination, with the earlier output intact; all output compared with the model".into(),
+        rule: "random grids up to 3x4 over {#, ., x, 1, 2, 3, blank, @, ',', X, robot markers in both cases}, ragged lines, LF / CRLF, trailing newline, with one robot (85%), none, two, or an unknown symbol / 0 digit; random command sequences of length 1-10 (rotations, guarded and unguarded MOVE_FORWARD); after every command the ASCII rendering and CAN_MOVE in all four directions (and an unknown direction word) are displayed; checkpoint corridors incl. out-of-order, repeated and skipped numbers; every ROBOT procedure on every argument exemplar; unguarded moves into a wall must end the run as the specified termination, with the earlier output intact; all output compared with the model; grids whose rightmost columns are blank in every line, walked systematically".into(),
         exhaustive: false,
         notes: vec![],
     }
